@@ -64,7 +64,10 @@ def load(tape, start, cfg, outfile, extra=()):
         args += ['-c', '%s=%s' % (k, v)]
     args += list(extra) + [tape, outfile]
     out = run_tool(tap2sna, args)
-    snap = snapshot_mod.Snapshot.get(outfile)
+    try:
+        snap = snapshot_mod.Snapshot.get(outfile)
+    except Exception as e:
+        raise ToolError('snapshot written by tap2sna%r cannot be read back: %s: %s' % (args, type(e).__name__, e))
     return out, dict(_state), snap
 
 def stripped(out):
